@@ -103,41 +103,44 @@ End Notify.
 (* ------------------------------------------------------------------ polling reader *)
 (* program points of Read: read attempt / os.Stat / between Stat and os.Open (holding st.Size()) / closed *)
 Inductive ppc := PRead | PStat | POpen (sz : nat) | PEnded.
-Record pstate := mkp { penv : env; pfd : fd; ppcs : ppc; rb : nat (* readBytes *); pdel : bytes }.
+Record pstate := mkp { penv : env; pfd : fd; ppcs : ppc; rb : nat (* readBytes *); pdel : bytes;
+                        patt : nat }.   (* read attempts left before the next os.Stat (ReadAttempts - i) *)
 
 Section Poll.
 Variable reopen : bool.
 
+(* ReadAttempts is an exported field: whenever the attempt counter restarts, the budget [a] is any number. *)
 Inductive pstep : pstate -> label -> pstate -> Prop :=
-| p_env s l e' : estep (penv s) l e' -> pstep s l (mkp e' (pfd s) (ppcs s) (rb s) (pdel s))
-(* n, err := s.f.Read(buf); s.readBytes += n; n > 0: return *)
-| p_read_data s i off bs rest : ppcs s = PRead -> pfd s = Some (i, off) -> bs <> [] ->
+| p_env s l e' : estep (penv s) l e' -> pstep s l (mkp e' (pfd s) (ppcs s) (rb s) (pdel s) (patt s))
+(* n, err := s.f.Read(buf); s.readBytes += n; n > 0: return (the next Read starts with i = 0) *)
+| p_read_data s i off bs rest a : ppcs s = PRead -> pfd s = Some (i, off) -> bs <> [] ->
     skipn off (content (penv s) i) = bs ++ rest ->
-    pstep s (LData bs) (mkp (penv s) (Some (i, off + length bs)) PRead (rb s + length bs) (pdel s ++ bs))
-(* n = 0: sleep, next attempt ... *)
-| p_read_retry s i off : ppcs s = PRead -> pfd s = Some (i, off) -> skipn off (content (penv s) i) = [] ->
-    pstep s LTau (mkp (penv s) (pfd s) PRead (rb s) (pdel s))
-(* ... or the attempts are used up (ReadAttempts is any number) *)
+    pstep s (LData bs) (mkp (penv s) (Some (i, off + length bs)) PRead (rb s + length bs) (pdel s ++ bs) a)
+(* n = 0: sleep, next attempt (one attempt less is left) ... *)
+| p_read_retry s i off k : ppcs s = PRead -> pfd s = Some (i, off) -> skipn off (content (penv s) i) = [] ->
+    patt s = S k ->
+    pstep s LTau (mkp (penv s) (pfd s) PRead (rb s) (pdel s) k)
+(* ... or the attempts are used up (allowed at any time: a superset of the code, harmless for safety) *)
 | p_read_giveup s i off : ppcs s = PRead -> pfd s = Some (i, off) -> skipn off (content (penv s) i) = [] ->
-    pstep s LTau (mkp (penv s) (pfd s) PStat (rb s) (pdel s))
+    pstep s LTau (mkp (penv s) (pfd s) PStat (rb s) (pdel s) (patt s))
 | p_nofd s : ppcs s = PRead -> pfd s = None ->
-    pstep s LTau (mkp (penv s) (pfd s) PStat (rb s) (pdel s))
+    pstep s LTau (mkp (penv s) (pfd s) PStat (rb s) (pdel s) (patt s))
 (* Reopen: st, _ := os.Stat; st != nil && st.Size() != s.readBytes *)
-| p_stat_reopen s : ppcs s = PStat -> reopen = true ->
+| p_stat_reopen s a : ppcs s = PStat -> reopen = true ->
     pstep s LStat (mkp (penv s) (pfd s)
                        (if present (penv s) && negb (size (penv s) =? rb s) then POpen (size (penv s)) else PRead)
-                       (rb s) (pdel s))
+                       (rb s) (pdel s) a)
 (* s.f, _ = os.Open; size >= readBytes: Seek(readBytes) (no effect on a nil file); else readBytes = 0 *)
-| p_open s sz : ppcs s = POpen sz ->
+| p_open s sz a : ppcs s = POpen sz ->
     pstep s LTau (if rb s <=? sz
                   then mkp (penv s) (match open_cur (penv s) with Some (i, _) => Some (i, rb s) | None => None end)
-                           PRead (rb s) (pdel s)
-                  else mkp (penv s) (open_cur (penv s)) PRead 0 (pdel s))
+                           PRead (rb s) (pdel s) a
+                  else mkp (penv s) (open_cur (penv s)) PRead 0 (pdel s) a)
 (* no Reopen: the path is still there: next round; it is gone: Close; return 0, io.EOF *)
-| p_stat_present s : ppcs s = PStat -> reopen = false -> present (penv s) = true ->
-    pstep s LTau (mkp (penv s) (pfd s) PRead (rb s) (pdel s))
+| p_stat_present s a : ppcs s = PStat -> reopen = false -> present (penv s) = true ->
+    pstep s LTau (mkp (penv s) (pfd s) PRead (rb s) (pdel s) a)
 | p_stat_gone s : ppcs s = PStat -> reopen = false -> present (penv s) = false ->
-    pstep s LEof (mkp (penv s) (pfd s) PEnded (rb s) (pdel s)).
+    pstep s LEof (mkp (penv s) (pfd s) PEnded (rb s) (pdel s) (patt s)).
 End Poll.
 
 (* ------------------------------------------------------------------ initial states *)
@@ -152,7 +155,7 @@ Definition fd0 (c0 : option bytes) (tail : bool) : fd :=
 Definition ninit (c0 : option bytes) (tail : bool) : nstate :=
   mkn (env0 c0) (fd0 c0 tail) NRead false false [] [].
 Definition pinit (c0 : option bytes) (tail : bool) : pstate :=
-  mkp (env0 c0) (fd0 c0 tail) PRead (match c0 with Some c => start_of tail c | None => 0 end) [].
+  mkp (env0 c0) (fd0 c0 tail) PRead (match c0 with Some c => start_of tail c | None => 0 end) [] 0.
 
 (* ------------------------------------------------------------------ the histories the property speaks about *)
 (* removal only after everything written so far has been delivered *)
